@@ -199,14 +199,17 @@ def facts(case):
         return fl
     import hugr.ops as ops
 
-    for s, d in h.links():
-        if isinstance(h[s.node].op, ops.Const | ops.FuncDefn | ops.FuncDecl):
-            fl.add("static-edge")
-        if s.offset == -1:
-            nin, nout = store.value_ports(h, s.node)
-            used = {p.offset for p, qs in h.outgoing_links(s.node) if qs}
-            if len(used) < nout:
-                fl.add("order-edge-with-unconnected-port")
+    try:
+        for s, d in h.links():
+            if isinstance(h[s.node].op, ops.Const | ops.FuncDefn | ops.FuncDecl):
+                fl.add("static-edge")
+            if s.offset == -1:
+                nin, nout = store.value_ports(h, s.node)
+                used = {p.offset for p, qs in h.outgoing_links(s.node) if qs}
+                if len(used) < nout:
+                    fl.add("order-edge-with-unconnected-port")
+    except KeyError:  # a store whose links name dead nodes: classified by what was seen; the check reports it
+        pass
     return fl
 
 
